@@ -5,6 +5,16 @@ NOTE_COMMON = ("Trusted: Lean kernel (axioms propext/Classical.choice/Quot.sound
                "fidelity outside the sampled correspondence, rustc/std and third-party crates as black boxes, the guarded hooks.")
 
 CLAIMS = {
+    "C15": {
+        "level": "Kernel-checked theorems over the reader's byte queue, for arbitrary following bytes: an unescaped <name> whose name is in the alias "
+                 "table is consumed as that one key; a non-alias <...> and an escaped \\< are the literal character; each documented alias and its raw "
+                 "byte/escape sequence yield the same KeyEvent and leave the same reader (esc, enter/return, BS, del, arrows, home, end, c-<letter>); "
+                 "read_key always consumes at least one byte; equal key sequences give equal behaviour for any mode function. The alias, control-byte and "
+                 "escape-sequence tables are regenerated from reader.rs/keys.rs on every run and re-checked against the model by decide. The model "
+                 "reader is compared with the real RawReader on grammar strings, raw fuzz and random bytes, and both spellings are run through the real editor in every mode.",
+        "note": NOTE_COMMON + " Open findings: <CR> vs raw CR (Normal/Visual/Replace), <tab> vs raw TAB. UTF-8 losslessness is proved for ASCII and tested for multi-byte; raw ESC followed by '[' and a multi-byte character splits that character (explored, not claimed).",
+        "technique": "Lean 4 proof over a byte-level reader model + table translator (decide over generated tables) + differential correspondence + behavioural comparison through the hook",
+    },
     "C12": {
         "level": "Kernel-checked theorems for every editor (read_field, set_normal_mode, global motion and line jump are parameters): the parser "
                  "turns -r N R into Repeat{last N commands in order, R+1} at top level and in -g/-v/--else scopes (clamping N, counting a closed "
